@@ -266,4 +266,22 @@ Section SfcNoVis.
     - intros i Hi. destruct (mut_ticks_fields run (sv_elapsed s) parts t3) as (_ & _ & M3). rewrite M3; [rewrite T2; reflexivity|].
       rewrite T3. fold idx. intros Hin. apply Hseq in Hin. lia.
   Qed.
+
+  (* every entity with mutations is in the body of one of the mutate messages *)
+  Lemma sfc_mut_covered e : In e (map fst (mutated_set s run cl)) ->
+    exists m, In m (co_mutates (snd P)) /\ In e (map fst (m_body m)).
+  Proof.
+    intros He.
+    assert (Hparts : exists ents, In ents parts /\ In e ents).
+    { unfold sfc_parts, sfc_bad. destruct (partition_ok (cfg_track c) (mutated_set s run cl) p) eqn:Eok; cbn [negb].
+      - apply partition_ok_spec in Eok. destruct Eok as (_ & _ & Hperm & _).
+        assert (Hin : In e (concat p)) by (eapply Permutation.Permutation_in; [apply Permutation.Permutation_sym; exact Hperm|exact He]).
+        apply in_concat in Hin. destruct Hin as [ents [A B]]. exists ents. auto.
+      - destruct (mutated_set s run cl) as [|m0 r0] eqn:Em; [destruct He|]. exists (map fst (m0 :: r0)). split; [left; reflexivity|exact He]. }
+    destruct Hparts as (ents & Hp & Hin).
+    assert (Hb : In (mut_body (mutated_set s run cl) ents) (map m_body (co_mutates (snd P)))).
+    { rewrite sfc_mutates_out, mut_msgs_bodies. apply in_map. exact Hp. }
+    apply in_map_iff in Hb. destruct Hb as [m [Eb Hm]]. exists m. split; [exact Hm|].
+    rewrite Eb. unfold mut_body. rewrite map_map. cbn [fst]. rewrite map_id. exact Hin.
+  Qed.
 End SfcNoVis.
